@@ -250,6 +250,7 @@ func main() {
 	rpmS := rpmStream(cfg)
 	capsS, gateS, widthS := capsStreams(cfg)
 	quirkS := quirkStream(cfg)
-	cfg.Write("C07", "quirk: fake terminals that name themselves in the XTVERSION reply (kitty(x), kitty, tmux 3.4, tmux 3.3, near misses, others, unnamed), answer the tertiary device attributes query not at all / as VTE / with a unit id / with a text that looks like a name, and report mode 2027 not at all / set / reset / permanently set / permanently reset, under all 16 combinations of VAXIS_FORCE_WCWIDTH, VAXIS_FORCE_UNICODE, VAXIS_FORCE_NOZWJ, VAXIS_DISABLE_NOZWJ, with and without explicit width (directed: name x DA3 x 2027; environment x name x 2027 x explicit width; random reply lists in any order with several names, unit ids before and after the name and contradicting reports); observed: TerminalID, styled underlines, the three width flags after New and after Suspend+Resume, how often CSI ?2027h / CSI ?2027l occur in the bytes of New, Suspend, Resume and Close, RenderedWidth of nine probe graphemes in both sessions; compared with the model (handleSequence + New's loop + applyQuirks + New's order + enableModes/disableModes) and with the specification (closed-form flags; one flag set for modes, capabilities and widths); non-trivial = an environment variable is set or the terminal is kitty / tmux 3.4; rpm: fake terminals that answer the DECRQM start-up queries for modes 2026 / 2027 / 2031 with every DECRPM value (directed: each mode x {no reply, no value, empty value, 0, 1, 2, 3, 4, 5, 9, 255} with the other modes silent or random, on terminals advertising nothing else / everything else / a random subset; random combinations, unsolicited reports for 2048 and other modes, second reports for a queried mode), capabilities reported by Vaxis compared with the model of handleSequence + the start-up loop (three mode capabilities) and with the specification of what each value establishes (all sixteen); non-trivial = at least one report was sent; fdist: pairs of channel-difference triples in [-255,255]^3 (all triples over a boundary set, all 511 values of each term, random, algebraic exact ties and their neighbours, neighbours in the exact order of two windows: exact ties between different triples and gaps <= 2/10^4) with math.Float64bits of asIndex's trial expression for both, Go's trial(d) < trial(e) and trial(d) == 0, compared bit for bit with the binary64 model; non-trivial = the triples differ; colours now also: every one of the 2^24 RGB colours whose asIndex result is not the first entry at minimal exact distance (found by running the real asIndex on all of them), and colours with one channel half way between two cube levels (exact ties); width: on the same terminals (some identifying as kitty: noZWJ quirk) RenderedWidth of probe graphemes (narrow, wide, emoji with modifier, ZWJ sequence, combining, VS16, flag, empty, lone mark) against the library's gwidth under the method the reported capabilities select; caps: fake terminals answering exactly the start-up queries of a capability subset (quick: none, all, every single capability, every pair, 400 random subsets of 17; thorough: all 2^17), capabilities reported by Vaxis compared with those advertised; gate: on such terminals three frames (render, render with cursor, refresh) with direct/indexed colours, styled and coloured underlines, hyperlinks, wide and zero-width cells, every token written classified by allowed; colours: default, indexed, all triples over a set of boundary channel levels, uniformly random RGB, raw 32-bit values, and histories of conversions with repeats of exact palette entries (a result must not depend on earlier conversions); non-trivial = RGB-tagged (goes through the palette search); distinct by (colour,result)",
-		[]*hx.Stream{s, fdistS, rpmS, capsS, gateS, widthS, quirkS}, map[string]interface{}{"sweep": sw}, nil)
+	gfxS := gfxStream(cfg)
+	cfg.Write("C07", "gfx: all 16 combinations of sixel reply / kitty graphics reply / ASCIINEMA_REC / pixel size known x VAXIS_GRAPHICS in {unset, none, full, half, sixel, kitty, two unknown words}: the graphics protocol New settles on (type returned by NewImage) compared with the model of New's step order and with the closed-form specification; quirk: fake terminals that name themselves in the XTVERSION reply (kitty(x), kitty, tmux 3.4, tmux 3.3, near misses, others, unnamed), answer the tertiary device attributes query not at all / as VTE / with a unit id / with a text that looks like a name, and report mode 2027 not at all / set / reset / permanently set / permanently reset, under all 16 combinations of VAXIS_FORCE_WCWIDTH, VAXIS_FORCE_UNICODE, VAXIS_FORCE_NOZWJ, VAXIS_DISABLE_NOZWJ, with and without explicit width (directed: name x DA3 x 2027; environment x name x 2027 x explicit width; random reply lists in any order with several names, unit ids before and after the name and contradicting reports); observed: TerminalID, styled underlines, the three width flags after New and after Suspend+Resume, how often CSI ?2027h / CSI ?2027l occur in the bytes of New, Suspend, Resume and Close, RenderedWidth of nine probe graphemes in both sessions; compared with the model (handleSequence + New's loop + applyQuirks + New's order + enableModes/disableModes) and with the specification (closed-form flags; one flag set for modes, capabilities and widths); non-trivial = an environment variable is set or the terminal is kitty / tmux 3.4; rpm: fake terminals that answer the DECRQM start-up queries for modes 2026 / 2027 / 2031 with every DECRPM value (directed: each mode x {no reply, no value, empty value, 0, 1, 2, 3, 4, 5, 9, 255} with the other modes silent or random, on terminals advertising nothing else / everything else / a random subset; random combinations, unsolicited reports for 2048 and other modes, second reports for a queried mode), capabilities reported by Vaxis compared with the model of handleSequence + the start-up loop (three mode capabilities) and with the specification of what each value establishes (all sixteen); non-trivial = at least one report was sent; fdist: pairs of channel-difference triples in [-255,255]^3 (all triples over a boundary set, all 511 values of each term, random, algebraic exact ties and their neighbours, neighbours in the exact order of two windows: exact ties between different triples and gaps <= 2/10^4) with math.Float64bits of asIndex's trial expression for both, Go's trial(d) < trial(e) and trial(d) == 0, compared bit for bit with the binary64 model; non-trivial = the triples differ; colours now also: every one of the 2^24 RGB colours whose asIndex result is not the first entry at minimal exact distance (found by running the real asIndex on all of them), and colours with one channel half way between two cube levels (exact ties); width: on the same terminals (some identifying as kitty: noZWJ quirk) RenderedWidth of probe graphemes (narrow, wide, emoji with modifier, ZWJ sequence, combining, VS16, flag, empty, lone mark) against the library's gwidth under the method the reported capabilities select; caps: fake terminals answering exactly the start-up queries of a capability subset (quick: none, all, every single capability, every pair, 400 random subsets of 17; thorough: all 2^17), capabilities reported by Vaxis compared with those advertised; gate: on such terminals three frames (render, render with cursor, refresh) with direct/indexed colours, styled and coloured underlines, hyperlinks, wide and zero-width cells, every token written classified by allowed; colours: default, indexed, all triples over a set of boundary channel levels, uniformly random RGB, raw 32-bit values, and histories of conversions with repeats of exact palette entries (a result must not depend on earlier conversions); non-trivial = RGB-tagged (goes through the palette search); distinct by (colour,result)",
+		[]*hx.Stream{s, fdistS, rpmS, capsS, gateS, widthS, quirkS, gfxS}, map[string]interface{}{"sweep": sw}, nil)
 }
